@@ -313,10 +313,10 @@ def runLine (st : DState) (j : Json) : DState × Option Json :=
     let hdrs : List (Str × Str) := (jA j "hdrs").toList.map (fun p => match p with
       | .arr a => (L ((a[0]?.bind (fun x => x.getStr?.toOption)).getD ""), L ((a[1]?.bind (fun x => x.getStr?.toOption)).getD ""))
       | _ => ([], []))
-    let r : Req :=
-      { method := L (jS j "method"), path := L (jS j "path"), rawURI := L (jS j "rawURI"), qError := L (jS j "qError"),
-        qErrDesc := L (jS j "qErrDesc"), qState := L (jS j "qState"), qCode := L (jS j "qCode"), json := jB j "json",
-        preflight := jB j "preflight", base := L (jS j "base"), hdrs := hdrs }
+    -- the request as net/http delivers it; `digest` (the model of the header glue) derives scheme, host, JSON preference, preflight
+    let r : Req := digest
+      { method := L (jS j "method"), host := L (jS j "host"), tls := jB j "tls", path := L (jS j "path"), rawURI := L (jS j "rawURI"),
+        qError := L (jS j "qError"), qErrDesc := L (jS j "qErrDesc"), qState := L (jS j "qState"), qCode := L (jS j "qCode"), hdrs := hdrs }
     let (o, jarF) := serveJar st.cfg e r (jarOf st st.b) fuel
     let jar' := ofTab (toTab 300 jarF)
     -- which token (if any) went through VerifyToken at this step: update the instance's verifier state
